@@ -878,3 +878,359 @@ def run_case(srv, case):
         return None, log, str(ex)
     except (OSError, e2e.RespParseError, RuntimeError) as ex:
         return None, log, "client error: %r" % (ex,)
+
+
+# =====================================================================================
+# in-process streams (h_reset)
+# =====================================================================================
+def _hx(s):
+    return C.hx(s if isinstance(s, bytes) else s.encode("latin-1"))
+
+
+def _kv(pairs):
+    return ",".join("%s:%s" % (_hx(k), _hx(v)) for k, v in pairs) if pairs else "-"
+
+
+DEFAULT_OPTS = 9567
+OPTSETS = [9567, 9567, 9567, 0, 1, 1 | 2 | 4, 8 | 16, 1 | 8 | 32 | 64, 0x8000 | 1 | 8 | 16 | 64]
+RST_OPS = ["reset", "resetex", "release", "h2init", "conreset", "ex", "respreset", "bodyclear0", "bodyclear1", "none"]
+RECYCLE_OPS = ["resetex", "release", "h2init", "reset", "conreset"]
+
+H1_DIRTY_VALID = [
+    b"GET /a/b?x=1 HTTP/1.1\r\nHost: Ex.org\r\nCookie: a=1\r\nX-Foo: bar\r\n\r\n",
+    b"POST /cgi/p.pl/extra?q HTTP/1.1\r\nHost: a.b:8080\r\nContent-Length: 12\r\nContent-Type: a/b\r\nCookie: x\r\nCookie: y\r\n\r\n",
+    b"POST /up HTTP/1.1\r\nHost: h\r\nTransfer-Encoding: chunked\r\nExpect: 100-continue\r\n\r\n",
+    b"GET http://abs.example/p/../q?z HTTP/1.0\r\nConnection: keep-alive\r\nRange: bytes=0-1\r\nIf-None-Match: \"e\"\r\n\r\n",
+    b"HEAD / HTTP/1.0\r\n\r\n",
+    b"OPTIONS * HTTP/1.1\r\nHost: o\r\n\r\n",
+    b"CONNECT h.example:443 HTTP/1.1\r\nHost: h.example:443\r\n\r\n",
+    b"GET /u HTTP/1.1\r\nHost: up\r\nConnection: Upgrade, HTTP2-Settings\r\nUpgrade: h2c\r\nHTTP2-Settings: AAQAAP__\r\n\r\n",
+    b"PUT /" + b"p" * 600 + b" HTTP/1.1\r\nHost: long\r\nContent-Length: 0\r\nX-L: " + b"v" * 5000 + b"\r\n\r\n",
+    b"DELETE /d HTTP/1.1\r\nhost: D\r\nAuthorization: Basic QQ==\r\nIf-Modified-Since: Sat, 29 Oct 1994 19:43:31 GMT\r\n\r\n",
+]
+H1_DIRTY_BAD = [
+    b"GET /a\x01 HTTP/1.1\r\nHost: x\r\n\r\n",
+    b"GET /a HTTP/1.1\r\n\r\n",
+    b"POST /p HTTP/1.1\r\nHost: x\r\nContent-Length: 5\r\nContent-Length: 6\r\n\r\n",
+    b"POST /p HTTP/1.1\r\nHost: x\r\nContent-Length: 5\r\nTransfer-Encoding: gzip\r\n\r\n",
+    b"BREW /p HTTP/1.1\r\nHost: x\r\nCookie: c\r\n\r\n",
+    b"GET /p HTTP/1.1\r\nHost: x\r\nHost: y\r\n\r\n",
+    b"GET /p HTTP/1.0\r\nHost: x\r\nX-A : b\r\n\r\n",
+    b"POST /p HTTP/1.0\r\nHost: x\r\nContent-Length: 7\r\nTransfer-Encoding: chunked\r\n\r\n",
+    b"GET /p HTTP/1.1\r\nHost: x\r\nContent-Length: 3\r\n\r\n",
+    b"GET /%2e%2e/%00 HTTP/1.1\r\nHost: x\r\nCookie: keep\r\n\r\n",
+]
+
+
+def h2_list(method="GET", path="/x", authority="h.x", scheme="http", extra=(), order=None):
+    fs = []
+    if method is not None:
+        fs.append((":method", method))
+    if scheme is not None:
+        fs.append((":scheme", scheme))
+    if path is not None:
+        fs.append((":path", path))
+    if authority is not None:
+        fs.append((":authority", authority))
+    return fs + list(extra)
+
+
+H2_DIRTY_VALID = [
+    h2_list(),
+    h2_list("POST", "/cgi/p.pl?q=1", "a.b:8080", extra=[("content-length", "12"), ("content-type", "a/b"), ("cookie", "x"), ("cookie", "y")]),
+    h2_list("GET", "/r", "r.x", extra=[("range", "bytes=0-1"), ("if-none-match", "\"e\""), ("te", "trailers")]),
+    h2_list("OPTIONS", "*", "o"),
+    h2_list("CONNECT", None, "h.example:443", scheme=None),
+    h2_list("CONNECT", "/ws", "h.example", extra=[(":protocol", "websocket")])[:4] + [(":protocol", "websocket")],
+    h2_list("HEAD", "/" + "p" * 300, "long", extra=[("x-l", "v" * 5000)]),
+]
+H2_DIRTY_BAD = [
+    h2_list(path="/a\x01"),
+    h2_list(authority=None),
+    h2_list(extra=[("connection", "close")]),
+    h2_list(extra=[("transfer-encoding", "chunked")]),
+    h2_list("BREW"),
+    h2_list(extra=[("content-length", "3"), ("content-length", "4")]),
+    h2_list(extra=[("x-a", "b"), (":path", "/late")]),
+    h2_list(extra=[("X-Upper", "b")]),
+    h2_list(extra=[("te", "gzip")]),
+    h2_list(scheme=None),
+    [(":method", "GET"), (":method", "POST"), (":scheme", "http"), (":path", "/x"), (":authority", "h")],
+]
+
+RESP_HDRS = [("Content-Type", "text/x"), ("Content-Length", "3"), ("Transfer-Encoding", "chunked"), ("ETag", "\"t\""),
+             ("Location", "/l"), ("Set-Cookie", "a=1"), ("X-Custom", "c"), ("WWW-Authenticate", "Basic"), ("Allow", "GET"),
+             ("Content-Encoding", "gzip"), ("Vary", "Accept-Encoding"), ("Upgrade", "h2c"), ("Connection", "close")]
+RQST_HDRS = [("Content-Length", "5"), ("Cookie", "c=1"), ("X-Req", "r"), ("Range", "bytes=0-0"), ("Upgrade", "x"),
+             ("Content-Type", "t/t"), ("If-None-Match", "*"), ("Connection", "keep-alive"), ("User-Agent", "ua")]
+
+
+def spec_pool(rng, pooled):
+    """one random dirtying token"""
+    k = rng.choice(["parse1", "parse1", "parse2", "m", "v", "st", "state", "hm", "uc", "qh", "host", "rbl", "qhl", "tgt",
+                    "to", "usch", "uauth", "upath", "uq", "pp", "pbig", "pb", "pd", "pr", "pi", "snb", "sn", "env", "rh",
+                    "rh", "rhi", "wq", "bq", "rdq", "fin", "started", "chunked", "dechunk", "rep", "gw", "loops", "ka",
+                    "async", "ehs", "ehm", "ext", "sp", "rhl", "tec", "civ", "cc", "po", "mrfs", "srb"]
+                   + (["h2r.po", "h2r.civ", "h2r.cc", "h2r.sn"] if pooled else []))
+    if k == "parse1":
+        return "parse1=%d:%s" % (rng.choice(OPTSETS), _hx(rng.choice(H1_DIRTY_VALID)))
+    if k == "parse2":
+        return "parse2=%d:%s" % (rng.choice(OPTSETS[:3]), _kv(rng.choice(H2_DIRTY_VALID)))
+    if k == "m":
+        return "m=%d" % rng.choice([0, 1, 3, 6, 7, -2, 20])
+    if k == "v":
+        return "v=%d" % rng.choice([0, 1, 2, 3])
+    if k == "st":
+        return "st=%d" % rng.choice([200, 206, 304, 400, 404, 500, 100, -1])
+    if k == "state":
+        return "state=%d" % rng.choice([1, 2, 4, 5, 7, 8, 9])
+    if k in ("hm", "uc", "fin", "started", "chunked", "dechunk", "rep", "gw", "async", "ext", "pbig"):
+        return k + "=1"
+    if k == "qh":
+        return "qh=" + _kv(rng.sample(RQST_HDRS, rng.randint(1, 3)))
+    if k == "host":
+        return "host=" + _hx(rng.choice(["ex.org", "a.b:80", "x"]))
+    if k == "rbl":
+        return "rbl=%d" % rng.choice([-1, 1, 5, 100000])
+    if k == "qhl":
+        return "qhl=%d" % rng.choice([10, 4096, 4097, 60000])
+    if k in ("tgt", "to"):
+        return k + "=" + _hx(rng.choice(["/t?q", "/", "*", "/x" * 40]))
+    if k == "usch":
+        return "usch=" + _hx(rng.choice(["http", "https"]))
+    if k == "uauth":
+        return "uauth=" + _hx(rng.choice(["stale.host", ""]))
+    if k in ("upath", "pr"):
+        return k + "=" + _hx(rng.choice(["/stale/path", "/", "/a.txt"]))
+    if k == "uq":
+        return "uq=" + _hx(rng.choice(["stale=1", ""]))
+    if k == "pp":
+        return "pp=" + _hx(rng.choice(["/docroot/stale/path", "/docroot/a.txt"]))
+    if k in ("pb", "pd"):
+        return k + "=" + _hx(rng.choice(["/docroot", "/other/root/"]))
+    if k == "pi":
+        return "pi=" + _hx(rng.choice(["/path/info", "/"]))
+    if k == "snb":
+        return "snb=" + _hx("name.buf")
+    if k == "sn":
+        return "sn=" + rng.choice(["buf", "auth"])
+    if k == "env":
+        return "env=" + _kv(rng.sample([("REMOTE_USER", "alice"), ("REDIRECT_STATUS", "404"), ("K", "V"), ("AUTH_TYPE", "Basic")], rng.randint(1, 2)))
+    if k == "rh":
+        return "rh=" + _kv(rng.sample(RESP_HDRS, rng.randint(1, 4)))
+    if k == "rhi":
+        return "rhi=" + _kv([("Set-Cookie", "a"), ("Set-Cookie", "b")] if rng.random() < 0.5 else rng.sample(RESP_HDRS, 2))
+    if k in ("wq", "bq", "rdq"):
+        return k + "=" + _hx(rng.choice([b"abc", b"x" * 100, b"GET / HTTP/1.1\r\n"]))
+    if k == "loops":
+        return "loops=%d" % rng.choice([1, 5, 6])
+    if k == "ka":
+        return "ka=%d" % rng.choice([1, -1])
+    if k == "ehs":
+        return "ehs=%d" % rng.choice([404, -404, 65535, 500])
+    if k == "ehm":
+        return "ehm=%d" % rng.choice([0, 1, 3])
+    if k == "sp":
+        return "sp=%d" % rng.choice([0, 5, 100])
+    if k == "rhl":
+        return "rhl=%d" % rng.choice([17, 300])
+    if k == "tec":
+        return "tec=%d" % rng.choice([7, -1, 1000])
+    if k in ("civ", "h2r.civ"):
+        return "%s=%d" % (k, rng.choice([258, 4294967295, 5, 0]))
+    if k in ("cc", "h2r.cc"):
+        return "%s=%d:%d:%d" % (k, rng.randint(1, 3), rng.choice([1, 2, 3]), rng.choice([2, 3]))
+    if k in ("po", "h2r.po"):
+        return "%s=%d" % (k, rng.choice([0, 1, 77, 9567 | 0x8000]))
+    if k == "mrfs":
+        return "mrfs=%d" % rng.choice([64, 65535])
+    if k == "srb":
+        return "srb=%d" % rng.choice([1, 2, 0x8000])
+    if k == "h2r.sn":
+        return "h2r.sn=buf"
+    raise KeyError(k)
+
+
+def parse_dump(out):
+    d = {}
+    for t in out.split(" "):
+        if "=" in t:
+            k, v = t.split("=", 1)
+            d[k] = v
+    return d
+
+
+# fields request_reset()/request_reset_ex() leave alone on purpose (each is written before it is read
+# by the next request, or is bookkeeping):  cond cache + validity (response.c / connection accept),
+# state (callers), server_name_buf ("reset when used"), physical.doc_root/basedir when physical.path was
+# never allocated (cleared again in http_response_prepare), reset-hook call counter
+PERSIST_OK = {"civ", "cc", "snb", "pd", "pb", "rc", "state"}
+PERSIST_OK_RESET_ONLY = {"uauth", "upath", "uq", "to", "sn", "pr"}       # kept for mod_status until request_reset_ex()
+PERSIST_OK_H1 = {"rdq"}      # h1: r->read_queue is the connection's queue and may hold the next (pipelined) request
+INHERITED_H2 = {"civ", "cc", "po", "sn", "conf"}
+
+
+class ResetOracle:
+    def __init__(self, baseline, baseline_h2):
+        self.base = parse_dump(baseline)
+        self.base_h2 = parse_dump(baseline_h2)
+
+    def __call__(self, line, out):
+        t = line.split(" ")
+        if t[0] == "rp":
+            if " | " not in out:
+                return None
+            a, b = out.split(" | ", 1)
+            if b == "bad-op" or a == "bad-op":
+                return None
+            if a != b:
+                return "request parsed differently into a recycled request object than into a fresh one (%s)" % t[3]
+            return None
+        if t[0] != "rst" or out in ("skip", "bad-op", "<crash>"):
+            return None
+        op = t[1]
+        if op not in ("reset", "resetex", "release", "h2init", "conreset"):
+            return None
+        d = parse_dump(out)
+        if d.get("rc") != "11":
+            return "request reset did not call every module's handle_request_reset hook exactly once"
+        base = self.base_h2 if op == "h2init" else self.base
+        allow = set(PERSIST_OK)
+        if op in ("reset", "conreset"):
+            allow |= PERSIST_OK_RESET_ONLY
+        if op in ("reset", "conreset", "resetex"):
+            allow |= PERSIST_OK_H1
+        if op in ("release", "h2init"):
+            allow.discard("state")
+            if out.startswith("same=0"):
+                return "request_acquire() did not reuse the released object"
+        if op == "h2init":
+            allow |= INHERITED_H2
+            want = {}
+            for tok in t[2:]:
+                if tok.startswith("h2r.civ="):
+                    want["civ"] = tok.split("=", 1)[1]
+                if tok.startswith("h2r.po="):
+                    want["po"] = tok.split("=", 1)[1]
+            for k, v in want.items():
+                if d.get(k) != v:
+                    return "HTTP/2 stream does not inherit %s from the connection request" % k
+        bad = sorted(k for k in base if k not in allow and d.get(k) != base[k])
+        if bad:
+            return "after %s the request object still carries state of the previous request: %s" % (
+                {"reset": "request_reset()", "conreset": "connection_reset()", "resetex": "request_reset()+request_reset_ex()",
+                 "release": "request_release()/request_acquire()", "h2init": "request_release()/h2_init_stream()"}[op],
+                ",".join(bad))
+        return None
+
+
+def reset_classify(line, out):
+    t = line.split(" ")
+    if t[0] == "rp":
+        a = out.split(" | ")[0].split(" ")
+        return "rp:%s:%s:%s" % (t[1], t[3], " ".join(a[:2]) if a[0] == "err" else a[0] + ":" + a[1])
+    if out in ("skip", "bad-op"):
+        return "rst:%s:%s" % (t[1], out)
+    kinds = sorted(set(x.split("=", 1)[0] for x in t[2:]))
+    if len(kinds) <= 2:
+        return "rst:%s:%s" % (t[1], "+".join(kinds))
+    return "rst:%s:n%d" % (t[1], min(len(kinds), 12))
+
+
+def gen_rst(ctx):
+    rng = ctx.rng
+    lines = []
+    singles = set()
+    for _ in range(4000):
+        singles.add(spec_pool(rng, True))
+    singles = sorted(singles)
+    for op in RST_OPS:
+        pooled = op in ("release", "h2init")
+        lines.append("rst " + op)
+        for s in singles:
+            if s.startswith("h2r.") and not pooled:
+                continue
+            lines.append("rst %s %s" % (op, s))
+    n = 25000 if ctx.quick else 250000
+    for _ in range(n):
+        op = rng.choice(RST_OPS[:5] * 3 + RST_OPS)
+        pooled = op in ("release", "h2init")
+        k = rng.choice([2, 2, 3, 4, 6, 9, 14])
+        toks = [spec_pool(rng, pooled) for _ in range(k)]
+        # at most one real parse, placed first (a parse on top of arbitrary dirt is not a server state)
+        ps = [x for x in toks if x.startswith("parse")]
+        toks = ps[:1] + [x for x in toks if not x.startswith("parse")]
+        lines.append("rst %s %s" % (op, " ".join(toks)))
+    return lines
+
+
+def h2_probe(rng):
+    if rng.random() < 0.7:
+        base = rng.choice(H2_DIRTY_VALID)
+    else:
+        base = rng.choice(H2_DIRTY_BAD)
+    fs = list(base)
+    if rng.random() < 0.3:
+        fs.append(rng.choice([("x-extra", "1"), ("cookie", "z=9"), ("accept", "*/*"), ("x-ws", "  padded \t"), ("empty", "")]))
+    if rng.random() < 0.1 and len(fs) > 1:
+        i = rng.randrange(len(fs))
+        fs[i], fs[-1] = fs[-1], fs[i]
+    return fs
+
+
+def gen_rp(ctx):
+    from . import c01
+    rng = ctx.rng
+    lines = []
+    n = 20000 if ctx.quick else 200000
+    for _ in range(n):
+        h2 = rng.random() < 0.4
+        op = rng.choice(RECYCLE_OPS if not h2 else ["release", "h2init", "h2init", "resetex"])
+        pooled = op in ("release", "h2init")
+        toks = []
+        r = rng.random()
+        if r < 0.45:
+            toks.append("parse1=%d:%s" % (rng.choice(OPTSETS), _hx(rng.choice(H1_DIRTY_VALID + H1_DIRTY_BAD))))
+        elif r < 0.75:
+            toks.append("parse2=%d:%s" % (rng.choice(OPTSETS[:3]), _kv(rng.choice(H2_DIRTY_VALID + H2_DIRTY_BAD))))
+        elif r < 0.85:
+            toks.append("parse1=%d:%s" % (rng.choice(OPTSETS), _hx(c01.build(rng, 0.6))))
+        for _ in range(rng.choice([0, 1, 2, 4, 8])):
+            s = spec_pool(rng, pooled)
+            if not s.startswith("parse"):
+                toks.append(s)
+        opts = rng.choice(OPTSETS)
+        if h2:
+            probe = _kv(h2_probe(rng))
+        else:
+            rr = rng.random()
+            blk = rng.choice(H1_DIRTY_VALID + H1_DIRTY_BAD) if rr < 0.5 else c01.build(rng, 0.7)
+            probe = _hx(blk)
+        lines.append("rp %s %d %s %s ; %s" % ("h2" if h2 else "h1", opts, op, " ".join(toks), probe))
+    return lines
+
+
+def run_inproc(ctx):
+    exe, err = C.build_harness("h_reset")
+    if exe is None:
+        ctx.broken.append({"kind": "harness-build", "names": ["h_reset"], "log": err[-3000:]})
+        return None
+    base, rc, e = C.run_lines([exe], ["rst none", "rst h2init"])
+    if rc != 0 or len(base) != 2:
+        ctx.violation("crash:h_reset:baseline", "h_reset crashed on the baseline case",
+                      {"property": ctx.pid, "kind": "sanitizer-or-crash", "correspondence": "reset(h_reset)",
+                       "input": "rst none", "stderr": e[-3000:]}, found=True)
+        return None
+    oracle = ResetOracle(base[0], base[1])
+    rst = gen_rst(ctx)
+    ctx.differential("reset(h_reset)", [exe], "server", rst, oracle, reset_classify)
+    rp = gen_rp(ctx)
+    if ctx.model_ok:
+        # IPv6-literal hosts are not modelled (as in C01): drop what the model marks skip-v6
+        mo, mrc, _ = C.parallel_lines([C.ltmodel_path(), "server"], rp)
+        if mrc == 0 and len(mo) == len(rp):
+            keep = [l for l, o in zip(rp, mo) if "skip-v6" not in o]
+            ctx.dist["rp:skipped-ipv6-literal-host"] = len(rp) - len(keep)
+            rp = keep
+    ctx.differential("parse-into-recycled(h_reset)", [exe], "server", rp, oracle, reset_classify)
+    return exe
